@@ -823,6 +823,14 @@ VSattach(HFILEID     f,    /* IN: file handle */
     else
         HGOTO_ERROR(DFE_BADACC, FAIL);
 
+    /* check for write-permission on the file (as Vattach does) */
+    if (acc_mode == 'w') {
+        filerec_t *file_rec = HAatom_object(f);
+
+        if (BADFREC(file_rec) || !(file_rec->access & DFACC_WRITE))
+            HGOTO_ERROR(DFE_BADACC, FAIL);
+    }
+
     /*      */
     if (vsid == -1) { /* ---------- VSID IS -1 -----------------------
                          if "r" access return error.
